@@ -6,11 +6,14 @@ pub(crate) fn leap_years(mut year: i32) -> u32 {
     if year.is_negative() {
         year += 1;
     }
-    let year_abs = year.abs();
-    let mut leaps = year_abs / 4 - year_abs / 100 + year_abs / 400;
-    if year.is_negative() {
-        leaps += 1;
-    }
+    let leaps = if year.is_negative() {
+        // Leap years between the given (astronomical) year and year 0 (= 1 BC, which is a leap year),
+        // excluding the given year itself
+        let year_abs = year.abs() - 1;
+        year_abs / 4 - year_abs / 100 + year_abs / 400 + 1
+    } else {
+        year / 4 - year / 100 + year / 400
+    };
     leaps as u32
 }
 
